@@ -7,7 +7,7 @@ from ..describe import describe
 from ..engines.schemas import resolve_iter, index_iter_base, range_parts, closure_return_term, closure_env, item_source
 from .. import lemmas
 from .common import configs_for, has_feature
-from .util import Rule, guarded, site_of_block
+from .util import Rule, guarded, site_of_block, check_visits_all
 from . import models
 from .C10 import skip_fact, same_iterator
 
@@ -250,6 +250,7 @@ def _strip(prog, rep):
             "strip_ansi_escape_sequences iterates %s" % (D(src) if src else "?"))
     ch = lm.item
     cases = set()
+    check_visits_all(r, body, lm, "strip_ansi_escape_sequences' loop")
     for tr in loop_system(prog, body, lm, [], [res]):
         if tr.kind != "back":
             continue
@@ -404,7 +405,8 @@ def _unicode(prog, rep):
                 continue
             removals += 1
             site = site_of_block(parent, b)
-            r5.check(c.tname == "DoubleEndedIterator::next_back", "removal-kind", "the removal is next_back() (drops the last element)", c.tname,
+            r5.check(c.tname == "DoubleEndedIterator::next_back" or c.name == "Vec::pop", "removal-kind",
+                     "the removal is next_back() / pop() (drops the last element)", c.tname,
                      "the opportunity sequence is shortened by %s" % c.tname, site=site)
             for x in chain:
                 if x[1] in ("Iterator::collect", "IntoIterator::into_iter", "unicode_linebreak::linebreaks", "Vec::into_iter"):
